@@ -1007,8 +1007,13 @@ struct Exec {
                     ? (gs == "NI" || gs == "AMB" ? "error-for-definition"
                                                   : "wrong-definition")
                     : (gs[0] == 'D' ? "definition-for-error" : "wrong-error");
+                // a definition chosen where none is more specific than all
+                // the others breaks C01's statement as much as C02's
                 return violate(
-                    want.kind == RES_DEF ? propdef : "C02", "dispatch", cls,
+                    want.kind == RES_DEF ? propdef
+                        : (gs[0] == 'D' && opts.focus == "C01") ? "C01"
+                                                                : "C02",
+                    "dispatch", cls,
                     "resolve returns " + gs + " for " + where +
                         ", expected " + res_str(want),
                     d);
@@ -1094,7 +1099,7 @@ struct Exec {
         if (out.nframes != 0) {
             d.set("got", "D" + std::to_string(out.frames[0].body));
             return violate(
-                "C02", "error", "definition-for-error",
+                opts.focus == "C01" ? "C01" : "C02", "error", "definition-for-error",
                 "definition " + std::to_string(out.frames[0].body) +
                     " ran for " + where + " although the call is " +
                     res_str(want),
@@ -1278,7 +1283,10 @@ struct Exec {
                         : (gs[0] == 'D' ? "definition-for-error"
                                         : "wrong-error");
                     return violate(
-                        want.kind == RES_DEF ? "C01" : "C02", "dispatch", cls,
+                        want.kind == RES_DEF ? "C01"
+                            : (gs[0] == 'D' && opts.focus == "C01") ? "C01"
+                                                                    : "C02",
+                        "dispatch", cls,
                         "table says " + gs + " for slot " +
                             std::to_string(m.slot) + " (" + kinds +
                             ") tuple (" + join(tuple) + "), expected " +
